@@ -323,7 +323,7 @@ def handleMinusLine : Handler := fun cfg m l =>
     .ok (shouldWriteGeneric cfg (flushMP m1) l)
 
 def plusLineTest (m : M) (l : L) : Bool :=
-  headerLineTest m && startsWithAny l.text Markers.plusLine
+  isDiffHeader m.st && startsWithAny l.text Markers.plusLine
 
 def plusLineFinish (cfg : Cfg) (m1 : M) (l : L) : Bool × M :=
   if (shouldWriteGeneric cfg m1 l).1 then (true, (shouldWriteGeneric cfg m1 l).2)
